@@ -1,43 +1,12 @@
-"""Per-property configuration read by vcheck.py and mkmanifest.py.
-
-Each entry:  harness (binary under harness/src/bin), run_vo (Coq runner module the case files
-import), theorems (names that must be stated in coq/Properties/Cxx.v, each followed by
-Print Assumptions), open_statements (parts of the full claim not proved: listed in evidence,
-never counted as discharged), translators (tools/gen_<name>.py run on every check), texts for
-MANIFEST.json."""
-
-COMMON_TRUSTED = [
-    "Coq 8.16.1 kernel / coqc (full .vo build; no -vos, no native_compute, no type-in-type)",
-    "vm_compute: used to evaluate the executable L1 model on correspondence cases, and inside proofs only for closed finite checks whose bound is in the statement",
-    "correspondence harness /verif/harness (generators, printers of cases as Coq terms, implementation-level oracles); rustc/cargo and the crates' own dependencies",
-    "tools/vcheck.py (orchestration, parsing of coqc output)",
-    "the L3 specification files (they define what the theorems mean)",
-]
-
-SHA_NOTE = ("Base/Sha256.v (Gallina SHA-256 over Coq primitive Uint63) is the executable hash instance used only in "
-            "correspondence runs; every theorem is parametric in the hash functions")
+"""Loads tools/props.d/Cxx.py (one file per property, each defining PROP = dict(...))."""
+import os, glob, importlib.util, sys
+sys.path.insert(0, os.path.dirname(os.path.abspath(__file__)))
+from props_common import *  # noqa
 
 PROPS = {}
-
-PROPS["C09"] = dict(
-    title="Binary Merkle roots equal the RFC 6962 tree hash",
-    family="bmt", harness="bmt", run_vo="Run/Bmt.vo",
-    theorems=["C09_calculator", "C09_from_leaf_hashes", "C09_tree", "C09_empty"],
-    open_statements=[],
-    translators=[],
-    trusted_base=[SHA_NOTE,
-                  "model of Rust Vec/u64 semantics in Merkle/BinaryModel.v (hand-written, tied by correspondence)",
-                  "theorems hold for fewer than 2^62 leaves (the Rust code returns TooLarge / panics beyond 2^63)"],
-    assumptions=["no hash assumption: the statement is an equality of hash expressions"],
-    rule=("leaf lists: every count 0..N dense (N=40 quick / 300 thorough), 2^k and 2^k±1, empty/identical/large leaves; "
-          "each case: all root implementations vs the Gallina L1 model and vs an independent recursive RFC 6962 MTH in the harness; "
-          "distinct = distinct (count, root); non-trivial = at least 2 leaves"),
-    level_text=("Machine-checked proof (Coq) that the peak-stack root calculator and the storage-backed tree model compute the RFC 6962 "
-                "MTH for every leaf list, by induction with the invariant 'stack = MTH of the maximal aligned power-of-two blocks'; the model is "
-                "tied to the Rust code by a differential run of all six root entry points on every check"),
-    level_note=("Trusted: Coq kernel; hand-written L1 model of root_calculator.rs/merkle_tree.rs/position.rs tied by correspondence testing "
-                "(testing, not proof); executable SHA-256 instance; harness. in_memory/ephemeral/receipts roots are thin wrappers over the two modelled "
-                "structures and are covered by the correspondence and the implementation-level oracle only."),
-    technique="Coq proof by induction over pushes (stack invariant) + differential model/impl run",
-    design_ref="6/C09",
-)
+for _p in sorted(glob.glob(os.path.join(os.path.dirname(os.path.abspath(__file__)), "props.d", "C*.py"))):
+    _name = os.path.basename(_p)[:-3]
+    _spec = importlib.util.spec_from_file_location("props_d_" + _name, _p)
+    _m = importlib.util.module_from_spec(_spec)
+    _spec.loader.exec_module(_m)
+    PROPS[_name] = _m.PROP
